@@ -33,8 +33,12 @@ func gaussJordan_DenseFloat64(a, x *DenseFloat64Matrix, b DenseFloat64Vector, su
   n, _ := a.Dims()
   // permutation of the rows
   p := make([]int, n)
+  // sequence of row interchanges (row i <-> row s[i], s[i] >= i) that
+  // generates p; this is the form PermuteRows/Permute apply correctly
+  s := make([]int, n)
   for i := 0; i < n; i++ {
     p[i] = i
+    s[i] = i
   }
   // x and b should have the same number of rows
   if m, _ := x.Dims(); m != n {
@@ -60,6 +64,7 @@ func gaussJordan_DenseFloat64(a, x *DenseFloat64Matrix, b DenseFloat64Vector, su
     }
     // swap rows
     p[i], p[maxrow] = p[maxrow], p[i]
+    s[i] = maxrow
     // eliminate column i
     for j := i+1; j < n; j++ {
       if !submatrix[j] {
@@ -148,13 +153,13 @@ func gaussJordan_DenseFloat64(a, x *DenseFloat64Matrix, b DenseFloat64Vector, su
     // normalize ith element in b
     b.AT(p[i]).DIV(b.AT(p[i]), c)
   }
-  if err := a.PermuteRows(p); err != nil {
+  if err := a.PermuteRows(s); err != nil {
     return err
   }
-  if err := x.PermuteRows(p); err != nil {
+  if err := x.PermuteRows(s); err != nil {
     return err
   }
-  if err := b.Permute(p); err != nil {
+  if err := b.Permute(s); err != nil {
     return err
   }
   return nil
